@@ -10,4 +10,6 @@ EXPLANATION = "Bounded (depth difference <= 2) and conditional on assumed geomet
 ASSUMPTIONS = ["G1: every point of a cell is within largest_center_to_vertex_distance of its centre (not decided)", "G2: a cone of radius < SMALLER_EDGE2OPEDGE_DIST[d] is inside the centre cell and its 8 neighbours at depth d (not decided)",
                "haversine shs is monotone in the true angular distance on [0, pi]", "cone_coverage_approx_internal's start-cell selection (neighbours of the centre cell, filtering, sort/dedup) not verified"]
 def units():
-    return recur_units() + [threshold_unit()]
+    table = [Unit("bsd_table_strictly_decreasing", "verif_c16::bsd_table_strictly_decreasing", ["SMALLER_EDGE2OPEDGE_DIST"], "start-depth table (C05 anchor): strictly decreasing, each limit more than twice the next, ratios decreasing towards 2 (transcription guard; the geometric meaning of the entries is not decided)", level="P"),
+             Unit("bsd_contract", "verif_c16::bsd_contract", ["best_starting_depth"], "best_starting_depth(r) = deepest depth whose limit exceeds r, all doubles (shared with C16)", level="P")]
+    return recur_units() + [threshold_unit()] + table
